@@ -80,7 +80,7 @@ CHECKS = {
              "hence independent of the partition (generic in sample type: holds for doubles). Every indexed write of the implementation is "
              "logged and compared with the layout model; bytes on disk are decoded independently and compared sample by sample with a "
              "one-shot numpy reference pipeline for several (num_subblocks, blocks_per_file) per configuration.",
-        design="3/C02", technique="Coq proof (Z layout arithmetic by nia, finite nibble table, chunking corollary) + write-log and byte-level correspondence"),
+        design="3/C02", technique="source-regenerated scalar kernels (tools/py2v.py) proved equal to the model + Coq proof (Z layout arithmetic by nia, finite nibble table, chunking corollary) + write-log and byte-level correspondence"),
     "C04": dict(
         text="Theorems: every valid card renders to exactly 80 bytes; padding is (-80n) mod 512 under DIRECTIO (aligned, < 512, zero when "
              "already aligned) and 0 otherwise; an independent reader recovers exactly the emitted blocks for every number of cards (all "
@@ -160,7 +160,7 @@ CHECKS = {
              "spectra / time series are the per-column / per-row sum or mean. The model is compared exactly with get_slice / dedrift / "
              "integrate on frames with distinct integer pixels (synthetic and loaded from .fil/.h5), and data, axes, rejection, inherited "
              "attributes, axis carried by Spectrum/TimeSeries and copy-not-view are evaluated on the implementation.",
-        design="3/C17", technique="Coq proof (list routing + round-half-even monotonicity over Q) + exact correspondence on integer-tagged frames"),
+        design="3/C17", technique="source-regenerated scalar kernels (tools/py2v.py) proved equal to the model + Coq proof (list routing + round-half-even monotonicity over Q) + exact correspondence on integer-tagged frames"),
     "C16": dict(
         text="Theorems: for any carrier and with no arithmetic law assumed, after the injection loop -- completed or interrupted by a raise on "
              "any frame k -- every frame's time axis is the very same object as before, and the loop raises exactly at the first failing "
@@ -179,7 +179,7 @@ CHECKS = {
              "tile (y/th, x/tw), which exists; trimming keeps exactly the full-size tiles. Real .fil files whose pixels encode (row, file "
              "channel) are split and every piece located (count, channels, integrations, frequencies, split_fil files, distribution "
              "helpers); arrays whose values encode (y, x) are tiled and compared with the model's rectangles for all shifts and trim flags.",
-        design="3/C19", technique="Coq proof (nested-loop invariants with fuel, nat div/mod) + value-encoded file/array correspondence"),
+        design="3/C19", technique="source-regenerated scalar kernels (tools/py2v.py) proved equal to the model + Coq proof (nested-loop invariants with fuel, nat div/mod) + value-encoded file/array correspondence"),
     "C03": dict(
         text="PARTIAL: blimpy 2.1.4 / h5py / astropy are modelled environment. Proved for setigen's side of the contract: the header written "
              "for a frame reads back to the same geometry (exact MHz<->Hz arithmetic, orientation = sign of foff); file-order flip is an "
